@@ -14,3 +14,4 @@ import Theorems.C02
 #print axioms C02.reed_ok
 #print axioms C02.reed_decoder_corrects
 #print axioms C02.reed_instances_in_catalogue
+#print axioms C02.bm_output_certified
